@@ -4,14 +4,20 @@ From PV Require Import C19.Model C19.Proofs C19.Base58 C19.Base58Proofs.
 From PV Require C18.Bech32.
 Open Scope Z_scope.
 
-Lemma b58_roundtrip_len bs : bytes_wf bs -> len bs <= 132 -> b58_decode (b58_encode bs) = Ok bs.
-Proof. intros Hw Hl. apply b58_roundtrip_proof; [exact Hw|exact Hl]. Qed.
+Lemma b58_roundtrip_len bs : bytes_wf bs -> len bs <= 132 -> pallas_decode_base58 (b58_encode bs) = Ok bs.
+Proof. intros Hw Hl. apply pallas_b58_roundtrip_proof; [exact Hw|exact Hl]. Qed.
 
 Lemma byron_base58_closed skip p : bytes_wf p -> len (byron_to_vec (from_decoded p)) <= 132 ->
-  from_base58 skip b58_decode (to_base58 b58_encode (from_decoded p)) = Ok (from_decoded p).
+  from_base58 skip pallas_decode_base58 (to_base58 b58_encode (from_decoded p)) = Ok (from_decoded p).
 Proof.
-  intros Hp Hl. apply (base58_roundtrip_sec skip b58_encode b58_decode b58_roundtrip_len); [|reflexivity|exact Hl].
+  intros Hp Hl. apply (base58_roundtrip_sec skip b58_encode pallas_decode_base58 b58_roundtrip_len); [|reflexivity|exact Hl].
   apply from_decoded_wf; [exact Hp|].
   assert (len p <= len (byron_to_vec (from_decoded p))); [|lia].
   unfold byron_to_vec, Cbor.Api.e_bytes, from_decoded. cbn [fst snd]. unfold len. rewrite !app_length. lia.
+Qed.
+
+Lemma from_base58_never_panics skip s : is_panic (from_base58 skip pallas_decode_base58 s) = false.
+Proof.
+  unfold from_base58. pose proof (pallas_decode_never_panics s) as H.
+  destruct (pallas_decode_base58 s); try reflexivity; [apply from_bytes_never_panics|discriminate].
 Qed.
